@@ -298,6 +298,16 @@ def stepC04 (ts : List String) : String :=
          | .error e => s!"err {e.name}")
       | _ => "bad-op"
     | _, _, _, _ => "bad-op"
+  | "cwritew" :: d :: dt :: c :: rest =>      -- values are already stored words (float32 bit patterns)
+    match d.toNat?, dtypeOf dt, c.toNat?, takeCounted rest with
+    | some d, some dt, some c, some (parts, rest2) =>
+      match takeCounted rest2 with
+      | some (ws, []) =>
+        (match Samples.cwriteAll d dt (splitParts c parts ws) with
+         | .ok bs => s!"ok {hexOf bs}"
+         | .error e => s!"err {e.name}")
+      | _ => "bad-op"
+    | _, _, _, _ => "bad-op"
   | ["readfil", h] =>
     match unhex h with
     | none => "bad-op"
